@@ -133,6 +133,22 @@ func init() {
 			[]Stmt{book, tbl("t", typed(it, "a", "b")...), tbl("fresh", typed(it, "f")...)}})
 	}
 	pairWitnesses = append(pairWitnesses,
+		// C01-j: a history that creates and drops a table, diffed against a schema that still has it (both directions),
+		// and a table re-created after the drop while another table follows it
+		witness{"w-history-dropped-first-table-other-side-has-it", my,
+			[]Stmt{tbl("a", ints("x")...), tbl("b", ints("y")...)},
+			[]Stmt{tbl("a", ints("x")...), tbl("b", ints("y")...), {Kind: "dropTable", T: "a"}}},
+		witness{"w-old-history-dropped-first-table-new-side-has-it", my,
+			[]Stmt{tbl("a", ints("x")...), tbl("b", ints("y")...), {Kind: "dropTable", T: "a"}},
+			[]Stmt{tbl("a", ints("x")...), tbl("b", ints("y")...)}},
+		witness{"w-history-dropped-table-recreated-before-later-change", my,
+			[]Stmt{tbl("a", ints("x")...), tbl("b", ints("y")...)},
+			[]Stmt{tbl("a", ints("x")...), tbl("b", ints("y")...), {Kind: "dropTable", T: "a"}, tbl("a", ints("x", "z")...),
+				{Kind: "addColumn", T: "b", Col: col("w", "int(11)"), Pos: "none"}}},
+		witness{"w-history-dropped-last-table-other-side-has-it", my,
+			[]Stmt{tbl("a", ints("x")...), tbl("b", ints("y")...), {Kind: "dropTable", T: "b"}},
+			[]Stmt{tbl("a", ints("x")...), tbl("b", ints("y")...)}})
+	pairWitnesses = append(pairWitnesses,
 		// C09-i: the old side is a history that dropped the first of two foreign keys
 		witness{"w-old-history-dropped-first-fk", my,
 			[]Stmt{tbl("u", col("id", "int(11)", oNotNull, oPk)), tbl("t", ints("id", "a", "b")...),
